@@ -53,6 +53,7 @@ EXPECTED_PROBES = [
     "use_after_end_checked",
     "read_only_refused",
     "initial_load_origin_from_text",
+    "retry_after_failed_commit_refused",
 ]
 
 
@@ -98,6 +99,7 @@ def gen_case(seed, tier):
         "load_replacement": rng.random() < 0.7,
         "base_exc_parity": rng.choice([0, 1]),
         "load_text_no_origin": rng.random() < 0.12,
+        "btree_t": rng.choice([3, 3, 4, 127]),
     }
 
 
@@ -385,6 +387,18 @@ def _run_write_txn(ctx, b, m, t, abort_at=None, hook=None, final=True, base_exc=
                 finally:
                     Z.COMMIT_FAULT["armed"] = False
                 if commit_failed:
+                    # a transaction whose commit failed has ended (rolled back): trying again must be refused
+                    import dns.transaction
+
+                    for again in ("commit", "rollback"):
+                        try:
+                            getattr(txn, again)()
+                        except dns.transaction.AlreadyEnded:
+                            continue
+                        except Exception as e:  # noqa: BLE001
+                            raise Violation("C10:use-after-end", f"[{b.kind}] {again}() after a failed commit raised {type(e).__name__} instead of AlreadyEnded")
+                        raise Violation("C10:use-after-end", f"[{b.kind}] {again}() after a failed commit did not raise AlreadyEnded")
+                    res.probes.inc("retry_after_failed_commit_refused")
                     raise Z.Planned("commit-failed")
                 committed = True  # nothing had to be frozen (no change): an ordinary commit
             elif t["end"] == "rollback":
@@ -500,6 +514,8 @@ def run_case(case, keep_log=False):
     log = EventLog(keep=keep_log)
     ctx = _Ctx(res, log)
     configs = Z.CONFIGS if case.get("configs", "all") == "all" else [tuple(c) for c in case["configs"]]
+    if Z.set_btree_branching(case.get("btree_t")) < 127:
+        res.faults.inc("btree_branching_factor_lowered")
     finals = {}
     try:
         for kind, rel in configs:
